@@ -8,6 +8,9 @@ import (
 	"encoding/json"
 	"errors"
 	"fmt"
+	"hash/adler32"
+	"hash/crc32"
+	"hash/fnv"
 	"math/rand"
 	"runtime/debug"
 	"sort"
@@ -47,6 +50,7 @@ type TTHCase struct {
 	Magic int    `json:"magic,omitempty"` // 16-bit magic (default 0x1000)
 	Hex   string `json:"hex,omitempty"`   // or a raw frame
 	Mut   string `json:"mut,omitempty"`   // enc mode: mutate the encoded frame before decoding (hostile)
+	Prior string `json:"prior,omitempty"` // dec mode: a frame (hex) that the same process decodes just before (history)
 }
 
 const gdprKey = ttheader.GDPRToken
@@ -197,6 +201,12 @@ func runTTHCase(raw json.RawMessage, w *TraceWriter) {
 		return
 	}
 	if c.Mode == "dec" {
+		if c.Prior != "" {
+			func() {
+				defer func() { recover() }()
+				ttheader.DecodeFromBytes(ctx, hexToBytes(c.Prior))
+			}()
+		}
 		var in []byte
 		if c.Hex != "" {
 			in = hexToBytes(c.Hex)
@@ -580,6 +590,17 @@ func tthHostileCases(c *Ctx) []json.RawMessage {
 			}
 		}
 	}
+	// history: a frame whose str key K1 was decoded just before one whose key K2 has the same length and the same
+	// checksum under a common cheap hash (FNV-1a/FNV-1 32, CRC-32, Adler-32) - what a cache keyed by hash would confuse
+	for _, pr := range collidingKeyPairs() {
+		mkf := func(k string) []byte {
+			fb, _ := ttheader.EncodeToBytes(context.Background(), ttheader.EncodeParam{SeqID: 5, StrInfo: map[string]string{k: "v-" + k[len(k)-3:]}})
+			return fb
+		}
+		f1, f2 := mkf(pr[0]), mkf(pr[1])
+		add(TTHCase{Hex: hexOf(&SegBuf{b: f2}), Prior: hexOf(&SegBuf{b: f1})})
+		add(TTHCase{Hex: hexOf(&SegBuf{b: f1}), Prior: hexOf(&SegBuf{b: f2})})
+	}
 	// inner string lengths that overrun the header by 1, 2, 3 bytes (the header ends the input exactly:
 	// nothing behind it but the end of the slice / a guard page), for the last string of every section kind
 	type lenAt struct{ off int }
@@ -683,9 +704,12 @@ func checkC06(c *Ctx) {
 }
 
 func checkC10(c *Ctx) {
-	c.rule = "MC: all 65536 header-size fields x {body present, one byte short, absent}; all 65536 flags; all 256 protocol ids and info ids; transform counts 0..255 x sizes; all 65536 magic words (MC_TTHeader). TRACE: the same families replayed on the real decoders (quick: size field stride 13, flags stride 31) plus random section orders, repeated sections, interleaved padding, count 0, size fields cutting into sections, every truncation point and perturbed structural bytes of valid frames; DecodeFromBytes, Decode over a bytes reader and Decode over fragmenting stream readers must succeed exactly when Parse does, with the same maps, HeaderLen = 14 + declared, PayloadLen - total = 4 - HeaderLen, ReadLen <= min(14 + declared, len)."
+	c.rule = "MC: all 65536 header-size fields x {body present, one byte short, absent}; all 65536 flags; all 256 protocol ids and info ids; transform counts 0..255 x sizes; all 65536 magic words (MC_TTHeader). TRACE: the same families replayed on the real decoders (quick: size field stride 13, flags stride 31) plus random section orders, repeated sections, interleaved padding, count 0, size fields cutting into sections, every truncation point and perturbed structural bytes of valid frames; DecodeFromBytes, Decode over a bytes reader and Decode over fragmenting stream readers must succeed exactly when Parse does, with the same maps, HeaderLen = 14 + declared, PayloadLen - total = 4 - HeaderLen, ReadLen <= min(14 + declared, len); streams of several framed messages read back to back from one reader, with and without Release in between."
 	c.MC("MC_TTHeader.tla", "MC_TTHeader.cfg", 4)
 	c.TraceCheck(famTTHC10, tthHostileCases(c))
+	// frames read back to back from one reader, with and without Release between them: the framing arithmetic of every
+	// frame is about that frame alone
+	c.TraceCheck(famFraming, framingCases(c))
 }
 
 func init() {
@@ -700,6 +724,9 @@ type FramingCase struct {
 	N      int   `json:"n"`
 	Chunks []int `json:"chunks"`
 	Wd     bool  `json:"wd"`
+	// NoRelease: the frames are read back to back without Release in between (Release is only needed when the caller is
+	// done with the slices): HeaderLen / PayloadLen are about THIS frame, whatever the reader has handed out before
+	NoRelease bool `json:"norelease,omitempty"`
 }
 
 func runFramingCase(raw json.RawMessage, w *TraceWriter) {
@@ -780,7 +807,9 @@ func runFramingCase(raw json.RawMessage, w *TraceWriter) {
 			}
 			fr = fmt.Sprintf(`{"ok":true,"hlen":%d,"plen":%d,"seq":%d,"method":%s,"schema":%q,"val":%s}`, tlcInt(dp.HeaderLen), tlcInt(dp.PayloadLen), seq,
 				projectBytes([]byte(m), seeds), structs[i].Schema, readValJSON(dst, seeds))
-			rd.Release(nil)
+			if !c.NoRelease {
+				rd.Release(nil)
+			}
 		}()
 		frames = append(frames, fr)
 	}
@@ -794,7 +823,7 @@ func framingCases(c *Ctx) []json.RawMessage {
 	var out []json.RawMessage
 	rng := rand.New(rand.NewSource(c.Seed*86028121 + 66))
 	for i := 0; i < c.Pick(300, 6000); i++ {
-		fc := FramingCase{Seed: rng.Int63(), N: 1 + rng.Intn(5), Wd: rng.Intn(2) == 0}
+		fc := FramingCase{Seed: rng.Int63(), N: 1 + rng.Intn(5), Wd: rng.Intn(2) == 0, NoRelease: i%2 == 1}
 		switch rng.Intn(4) {
 		case 0:
 			fc.Chunks = []int{-1}
@@ -875,4 +904,38 @@ func runTTHUtil(c *TTHCase, w *TraceWriter, seeds []int) {
 			}
 		}
 	}
+}
+
+// collidingKeyPairs: pairs of distinct equal-length keys with equal checksums under common cheap hashes (birthday search).
+var collidingPairsMemo [][2]string
+
+func collidingKeyPairs() [][2]string {
+	if collidingPairsMemo != nil {
+		return collidingPairsMemo
+	}
+	hashes := []func([]byte) uint32{
+		func(b []byte) uint32 { h := fnv.New32a(); h.Write(b); return h.Sum32() },
+		func(b []byte) uint32 { h := fnv.New32(); h.Write(b); return h.Sum32() },
+		crc32.ChecksumIEEE,
+		adler32.Checksum,
+	}
+	var out [][2]string
+	for hi, hf := range hashes {
+		for _, prefix := range []string{"rpc-transit-", "k"} {
+			seen := map[uint32]string{}
+			found := 0
+			for i := 0; i < 600000 && found < 2; i++ {
+				k := fmt.Sprintf("%s%08x", prefix, uint32(i)*2654435761+uint32(hi))
+				h := hf([]byte(k))
+				if o, ok := seen[h]; ok && o != k {
+					out = append(out, [2]string{o, k})
+					found++
+					continue
+				}
+				seen[h] = k
+			}
+		}
+	}
+	collidingPairsMemo = out
+	return out
 }
